@@ -5,7 +5,8 @@ From Coq Require Import List NArith ZArith Bool.
 From Qryn Require Import model.Ingest model.PushHandler model.IngestSpec model.IngestSched proofs.IngestBase proofs.IngestAck
   proofs.IngestSpecProofs proofs.IngestHandler proofs.IngestDrain proofs.IngestLive proofs.IngestLiveAll proofs.IngestRows
   proofs.IngestWait proofs.IngestStop model.IngestFair proofs.IngestFairProofs model.IngestRegions proofs.IngestRegionsProofs model.PushConfirm proofs.IngestConfirm
-  model.IngestConfirmSched proofs.IngestConfirmInv proofs.IngestConfirmLive.
+  model.IngestConfirmSched proofs.IngestConfirmInv proofs.IngestConfirmLive model.PushRead proofs.PushReadProofs.
+From Qryn Require model.SeriesIndex proofs.PushReadIndex.
 Import ListNotations.
 
 (* For every configuration (workers of any kind / round-robin group / maxQueueSize, retry count), every
@@ -360,3 +361,51 @@ Print Assumptions every_push_is_answered_and_confirmed_accordingly.
 Theorem tables_are_safe_to_confirm : forall k r, wf_reqb k r = true -> confirm_safe k r = true.
 Proof. exact wf_confirm_safe. Qed.
 Print Assumptions tables_are_safe_to_confirm.
+
+(* ---- the parsers' READ of the announcement cache (round 4; model/PushRead.v) ------------------------------------------
+
+   A push arrives through its parser, which leaves out the series rows it finds in the cache (maybeAddFp = !Has): RPush full
+   omit, enabled iff every row of omit was confirmed (the rows left out are ANY subset of the confirmed rows: the parser
+   reads while other pushes confirm, and the cache may lose entries).  A series row is named by what it is about (day,
+   fingerprint, type), as the cache key is.  The system is a refinement of the wrapped one -- every theorem above holds of
+   it, with the requests actually sent. *)
+Theorem reading_system_refines : forall tr c c' es, rrun c tr = Some (c', es) -> crun c (map cact_of tr) = Some (c', es).
+Proof. exact rrun_refines. Qed.
+Print Assumptions reading_system_refines.
+
+(* A series row a parser leaves out is stored: the confirmation loop of an earlier push entered it into the cache, and when
+   that loop ran every sub-request of that push -- the series request holding the row among them -- was covered by blocks
+   whose Do had returned without error. *)
+Theorem omitted_series_rows_are_stored : forall cfg n tr1 full omit tr2 c ces,
+  forallb act_wf (base_trace (map cact_of tr1)) = true ->
+  rrun (cinit cfg n) (tr1 ++ RPush full omit :: tr2) = Some (c, ces) ->
+  forall id, In id omit ->
+  exists c1 ces1 cesa h keys cesb reqs m, rrun (cinit cfg n) tr1 = Some (c1, ces1) /\ ces1 = cesa ++ EConfirm h keys :: cesb /\ In id keys /\
+    series_keys reqs = Some keys /\
+    run_mon (amon_step true) (amon_init (length cfg)) (base_events cesa) = Some m /\
+    forallb (fun kr => covered true (a_acked m) (fst kr) (snd kr)) reqs = true.
+Proof. exact omitted_rows_are_stored. Qed.
+Print Assumptions omitted_series_rows_are_stored.
+
+(* THE ACKNOWLEDGEMENT WITH THE READ: for every configuration and every run in which pushes arrive through parsers that read
+   the cache (full emissions and direct requests being tables), whenever a push answers success, every request its BODY
+   gives rise to -- the full emission, the series rows its parser left out included -- is stored: every row of its series
+   requests has all its cells in one block whose Do returned without error (this push's block, or the block of the earlier
+   push whose confirmation put the row into the cache), every other request is covered by one such block.  `tr` is any run,
+   `a` the step that writes the answer: every success answer of every run is one (prefixes of runs are runs). *)
+Theorem full_request_is_stored : forall cfg n tr a c1 ces1 c2 es2 h reqs full omit,
+  forallb ract_wf (tr ++ [a]) = true ->
+  rrun (cinit cfg n) tr = Some (c1, ces1) -> rstep c1 a = Some (c2, es2) -> In (CE (EAnswer h reqs true)) es2 ->
+  nth_error (arrivals tr) h = Some (full, omit) ->
+  exists m, run_mon (amon_step true) (amon_init (length cfg)) (base_events ces1) = Some m /\
+    forallb (stored_req (a_acked m)) (item_reqs full) = true.
+Proof. exact PushReadProofs.full_request_is_stored. Qed.
+Print Assumptions full_request_is_stored.
+
+(* What "leaves out the rows it finds in the cache" is in C04's model of onEntries (model/SeriesIndex.v, reused as it is):
+   the series rows a body gives rise to against a cache are those it gives rise to against the empty cache -- the `full`
+   emission -- that the cache does not hold, in the same order. *)
+Theorem left_out_rows_are_the_cached_ones : forall C ss,
+  snd (SeriesIndex.parse C ss) = filter (fun x => negb (SeriesIndex.mem_row x C)) (snd (SeriesIndex.parse [] ss)).
+Proof. exact PushReadIndex.parse_is_strip. Qed.
+Print Assumptions left_out_rows_are_the_cached_ones.
